@@ -163,7 +163,7 @@ def differential_side(plan, sim):
         if len(data) > 65536:
             sim.count("content_gt_64k")
         datas[delimited] = data
-        fobj, pipe = open_frontend(plan["frontend"], sim, data=data, policy="safe")
+        fobj, pipe = open_frontend(plan["frontend"], sim, data=data, policy=plan.get("policy", "tape"))
         try:
             res = c09.consume(plan, fobj, physical)
         except Exception as e:  # noqa: BLE001
